@@ -5,6 +5,7 @@ import Orx.GenThms.Vec
 import Orx.GenThms.Arr
 import Orx.GenThms.Range
 import Orx.GenThms.New
+import Orx.GenThms.Own
 /-! # C17 Same behaviour in debug and optimized builds; std preconditions respected
 
 The model has no build mode: after the `fix:` commits no arithmetic of the crate can overflow and no std
@@ -82,5 +83,50 @@ open Orx.RS Orx.Gen Orx.GenThms in
 /-- the only panic left is the documented one: `BufferedIter::new` with chunk size 0 -/
 theorem source_only_documented_panic (s : St) : BufferedIterNew.new ⟨0⟩ () s = .fail .assertion :=
   buffered_new_zero_panics s
+
+
+/-! ## The owner-side code of the consuming kinds (`Generated/Own.lean`): no std precondition is violated -/
+section SourceOwn
+open Orx.RSO Orx.GenO Orx.GenThms.Own
+
+/-- a result of the ownership monad that is not a fault (it returns, or it unwinds from an injected destructor panic) -/
+def NoFault {α : Type} (r : Res α) : Prop := ∀ f, r ≠ .fail f
+
+/-- **The owner-side code never violates a documented precondition of std, never overflows and never fails an assertion** —
+`ptr.add` stays inside the allocation, `ptr.read` / `drop_in_place` only touch slots that still hold an element,
+`set_len(n)` has `n ≤ capacity`, `split_off(at)` has `at ≤ len`, `ManuallyDrop::take` finds a value, `debug_assert!`s hold,
+`len - begin` does not underflow — for every length, capacity, counter value (also overshot) and injected destructor panic:
+`Drop`, `into_seq_iter`, `skip_to_end`, single and chunk pulls of `ConIterOfVec` and `ConIterOfArray`, and every way of
+consuming a chunk (`Taken::next` / `Drop for Taken`). The debug-only checks (`debug_assert!`, overflow checks, std's
+`ub_checks`) are faults of this monad, so "no fault" is also "debug and release builds agree". -/
+theorem source_owner_code_never_faults (len cap f : Nat) (o : OSt) (ρ' : Type) (hw : cap < W)
+    (hv : VecCell o len cap) (hu : Untouched o (min o.ctr len) len) (n j : Nat) :
+    NoFault ((Vec.drop f (vecS len) : PF ρ' _) o) ∧ NoFault ((Vec.into_seq_iter f (vecS len) : PF ρ' _) o) ∧
+    NoFault ((Vec.early_exit f (vecS len) : PF ρ' _) o) ∧ NoFault ((Vec.fetch_n f (vecS len) n : PF ρ' _) o) ∧
+    NoFault ((Vec.fetch_one f (vecS len) : PF ρ' _) o) ∧
+    (∀ b l, b + l ≤ cap → Untouched o b (b + l) → NoFault ((consumeTaken f j (taken cap b l 0) : PF ρ' _) o)) := by
+  have hlw : len < W := by have := hv.2; omega
+  refine ⟨?_, ?_, ?_, ?_, ?_, ?_⟩
+  · rw [vec_drop len len cap f o ρ' hv hu]; intro e; split <;> simp
+  · rw [vec_into_seq_iter len cap f o ρ' hv hu]; intro e; simp
+  · rw [vec_early_exit len cap f o ρ' hv hu]; intro e; split <;> simp
+  · rw [vec_fetch_n len cap n f o ρ' hv hlw]; intro e; simp
+  · rw [vec_fetch_one len cap f o ρ' hv (fun h p h1 h2 => hu p (by omega) (by omega))]; intro e; split <;> simp
+  · intro b l hb hub
+    rw [consume_taken cap b l f ρ' hb hw j 0 o (Nat.zero_le _) (by simpa using hub)]; intro e; split <;> simp
+
+theorem source_array_owner_code_never_faults (N f : Nat) (o : OSt) (ρ' : Type) (hw : N < W)
+    (hv : ArrCell o N) (hu : Untouched o (min o.ctr N) N) (n : Nat) :
+    NoFault ((Arr.drop f N arrS : PF ρ' _) o) ∧ NoFault ((Arr.into_seq_iter f N arrS : PF ρ' _) o) ∧
+    NoFault ((Arr.early_exit f N arrS : PF ρ' _) o) ∧ NoFault ((Arr.fetch_n f N arrS n : PF ρ' _) o) ∧
+    NoFault ((Arr.fetch_one f N arrS : PF ρ' _) o) := by
+  refine ⟨?_, ?_, ?_, ?_, ?_⟩
+  · rw [arr_drop N f o ρ' hv hu]; intro e; split <;> simp
+  · rw [arr_into_seq_iter N f o ρ' hv hu]; intro e; simp
+  · rw [arr_early_exit N f o ρ' hv hu]; intro e; split <;> simp
+  · rw [arr_fetch_n N n f o ρ' hv hw]; intro e; simp
+  · rw [arr_fetch_one N f o ρ' hv (fun h p h1 h2 => hu p (by omega) (by omega))]; intro e; split <;> simp
+
+end SourceOwn
 
 end Orx.Props.C17
